@@ -611,6 +611,10 @@ pub struct KnownFinding {
 pub struct StoredCaseRef {
     pub stream: String,
     pub case: Value,
+    /// run the witness in a child process (for failures that end the process, e.g. a stack
+    /// overflow): killed by a signal / exit 1 / no result in 60 s = "still fails"
+    #[serde(default)]
+    pub isolate: bool,
 }
 
 pub fn load_known_findings() -> Vec<KnownFinding> {
@@ -664,6 +668,42 @@ fn timed_replay(
     })
 }
 
+/// Replay a witness in a child process; Ok(Err(..)) = it still fails.
+fn isolated_replay(property: &str, id: &str, w: &StoredCaseRef) -> Result<Result<(), String>, String> {
+    let dir = verif_dir().join("replays");
+    let _ = std::fs::create_dir_all(&dir);
+    let path = dir.join(format!("witness-{}-{}.json", property, id));
+    let body = json!({"property": property, "stream": w.stream, "case": w.case, "reason": "witness of a known finding"});
+    std::fs::write(&path, serde_json::to_string_pretty(&body).unwrap()).map_err(|e| e.to_string())?;
+    let exe = std::env::current_exe().map_err(|e| e.to_string())?;
+    let mut child = std::process::Command::new(exe)
+        .arg("replay")
+        .arg(&path)
+        .stdout(std::process::Stdio::null())
+        .stderr(std::process::Stdio::null())
+        .spawn()
+        .map_err(|e| e.to_string())?;
+    let t0 = Instant::now();
+    loop {
+        match child.try_wait() {
+            Ok(Some(st)) => {
+                return Ok(match st.code() {
+                    Some(0) => Ok(()),
+                    Some(1) => Err("the witness still fails".to_string()),
+                    Some(c) => return Err(format!("witness replay exited with {}", c)),
+                    None => Err("the witness still ends the process with a signal".to_string()),
+                })
+            }
+            Ok(None) if t0.elapsed() > Duration::from_secs(60) => {
+                let _ = child.kill();
+                return Ok(Err("the witness still does not finish within 60 s".to_string()));
+            }
+            Ok(None) => std::thread::sleep(Duration::from_millis(50)),
+            Err(e) => return Err(e.to_string()),
+        }
+    }
+}
+
 fn find_stream<'a>(p: &'a Property, name: &str) -> Option<&'a dyn AnyStream> {
     p.streams.iter().find(|s| s.name() == name).map(|b| b.as_ref())
 }
@@ -703,7 +743,12 @@ pub fn run_property(p: &Property, tier: Tier, seed: u64) -> i32 {
     let mut known_report = vec![];
     for k in kfs.iter().filter(|k| k.property == p.id && k.status == "known") {
         if let Some(w) = &k.witness {
-            match find_stream(p, &w.stream).map(|s| timed_replay(s, &w.case, &format!("witness of {}", k.id), p.id, false)) {
+            let outcome = if w.isolate {
+                Some(isolated_replay(p.id, &k.id, w))
+            } else {
+                find_stream(p, &w.stream).map(|s| timed_replay(s, &w.case, &format!("witness of {}", k.id), p.id, false))
+            };
+            match outcome {
                 Some(Ok(Err(_still_fails))) => {
                     let line = format!("KNOWN-FINDING: property={} {}", p.id, k.what);
                     println!("{}", line);
